@@ -39,9 +39,59 @@ def _norm_items(fn_node, items):
             out.append(("call", it[1], [_norm(fn_node, a) for a in it[2]], it[3], it[4]))
         elif it[0] == "ret":
             out.append(("ret", _norm(fn_node, it[1]) if it[1] else None))
+        elif it[0] == "rebind":
+            out.append(("rebind", _norm(fn_node, it[1]), {k: (_norm(fn_node, v[0]), v[1]) for k, v in it[2].items()}, it[3]))
         else:
             out.append(it)
     return out
+
+
+def _fold_value_text(text):
+    """NumericValue(c).high_byte() / .low_byte() / .int with constant c -> int"""
+    m = re.fullmatch(r"\(?NumericValue\((0x[0-9A-Fa-f]+|\d+)\)\)?\.(high_byte\(\)|low_byte\(\)|int)", text)
+    if not m:
+        return None
+    v = int(m.group(1), 0)
+    if m.group(2) == "int":
+        return v
+    return (v >> 8) & 0xFF if m.group(2).startswith("high") else (v & 0xFF if v > 0xFF else v)
+
+
+def apply_rebinds(flat):
+    """x = x._replace(field=v): later reads of x.field denote v (NamedTuple semantics)"""
+    over = {}
+    out = []
+
+    def rw(text):
+        if text is None:
+            return text, None
+        changed = False
+        for (name, field), val in over.items():
+            pat = r"(?<![\w.])%s\.%s\b" % (re.escape(name), re.escape(field))
+            if re.search(pat, text):
+                text = re.sub(pat, lambda m: val, text)
+                changed = True
+        return text, (_fold_value_text(text) if changed else None)
+
+    def walk(items):
+        res = []
+        for it in items:
+            if it[0] == "rebind":
+                for k, v in it[2].items():
+                    over[(it[1], k)] = v[0]
+                continue
+            if it[0] == "byte":
+                t, cst = rw(it[1])
+                res.append(("byte", t, cst if cst is not None else (it[2] if t == it[1] else None), it[3]))
+            elif it[0] == "acc":
+                t, cst = rw(it[3])
+                res.append(("acc", it[1], it[2], t, cst if cst is not None else (it[4] if t == it[3] else None)))
+            elif it[0] == "rep":
+                res.append(("rep", it[1], it[2], walk(it[3]), it[4]))
+            else:
+                res.append(it)
+        return res
+    return walk(flat)
 
 
 def _writer_accs(ctx, methods):
@@ -264,6 +314,7 @@ def cas1(ctx, c):
                 continue
             npaths += 1
             site = "%s[%s]" % (name, cd)
+            flat = apply_rebinds(flat)
             frame, accs, tail, closed = _frame(flat)
             if not closed or len(frame) < 6:
                 c.undecided(site, "frame-not-recognised", "could not find `checksum byte, closing byte` in the emitted sequence", where)
@@ -536,3 +587,300 @@ def cas6(ctx, c):
 
 
 RULES = {"CAS-1": cas1, "CAS-4": cas4, "CAS-6": cas6}
+
+
+# ---------------------------------------------------------------------------------------------------
+# CAS-5 reader / writer layout agreement
+
+
+def writer_layout(ctx):
+    """field -> offset in the name-file frame, frame length, from the extracted writer"""
+    methods, items = _extract(ctx)
+    writers = _block_writers(ctx)
+    hdr = next((n for n, t in writers.items() if t == T.BLOCK_NAMEFILE), None)
+    if hdr is None:
+        raise AnalysisError("CAS-5: no name-file block writer found")
+    lay = {}
+    total = None
+    for conds, flat in paths(_inline(items, items[hdr], hdr)):
+        frame, accs, tail, closed = _frame(flat)
+        if not closed:
+            continue
+        off = 0
+        for it in frame:
+            if it[0] == "byte":
+                f = _field(it[1])
+                if f:
+                    lay.setdefault(f, off)
+                off += 1
+            elif it[0] == "rep":
+                n, sym = count_bytes([it])
+                if n is None or sym:
+                    return None
+                if off == 4:
+                    lay["name"] = (off, n)
+                off += n
+        total = off
+        break
+    lay["frame_len"] = total
+    if "gap_flag" not in lay and "data_type" in lay:
+        lay["gap_flag"] = lay["data_type"] + 1      # written as a constant: identified by position
+    return lay
+
+
+def _lin_off(v, base):
+    """Lin(base + c) -> c"""
+    if isinstance(v, Lin) and v.terms == {base: 1}:
+        return v.c
+    if isinstance(v, Opq) and v.text == base:
+        return 0
+    return None
+
+
+def _find_sub_offset(v, base):
+    """offset of the first self.buffer[...] read inside an abstract value"""
+    if isinstance(v, Ctor):
+        if v.cls == "sub":
+            return _lin_off(v.args[1], base)
+        if v.cls.startswith("call:") and v.args:
+            return _lin_off(v.args[0], base)
+        for a in list(v.args) + list(v.kw.values()):
+            r = _find_sub_offset(a, base)
+            if r is not None:
+                return r
+    return None
+
+
+def cas5(ctx, c):
+    """CAS-5: the reader consumes exactly the frames the writer produces, field by field."""
+    repo = ctx.repo
+    C = repo.cls(CLS)
+    lay = writer_layout(ctx)
+    rf = repo.method(CLS, "read_file")
+    rb = repo.method(CLS, "read_blocks")
+    where = repo.loc(rf, rf.node)
+    if not lay or lay.get("frame_len") is None:
+        c.undecided("writer-layout", "not-extractable", "", where)
+        return
+    helpers = {}
+    for n, f in C.methods.items():
+        if n.startswith("read_") and n not in ("read_file", "read_blocks", "read_word") and len(f.params) >= 2:
+            helpers["self." + n] = f.node
+    try:
+        it = Interp(rf.node, sub_bases=("self.buffer",), call_syms={"self.skip_to_sequence": "F"},
+                    call_ctors=("self.read_word", "self.read_blocks"), inline=helpers)
+        res = it.run()
+    except PathCap as e:
+        c.undecided("read_file", "path-cap", str(e), where)
+        return
+    # (a) the scanned header signature
+    sig = None
+    for n in ast.walk(rf.node):
+        if isinstance(n, ast.Call) and U(n.func) == "self.skip_to_sequence" and n.args:
+            from ..consteval import try_fold
+            sig = try_fold(n.args[0], ctx.env)
+    c.check(sig == [T.SYNC[0], T.SYNC[1], T.BLOCK_NAMEFILE], "read_file:signature", "55 3C 00", "scans for %s" % (sig,),
+            "read_file looks for the sequence %s, a name-file block starts 55 3C 00" % (sig,), where)
+    want_kw = {"type": "file_type", "data_type": "data_type", "gaps": "gap_flag", "load_addr": "load_hi", "exec_addr": "exec_hi"}
+    nret = 0
+    for o in res:
+        v = o.value
+        if o.kind != "return" or not (isinstance(v, Ctor) and v.cls == "list" and v.args and isinstance(v.args[0], Ctor) and v.args[0].cls == "CoCoFile"):
+            continue
+        nret += 1
+        cf = v.args[0]
+        w = repo.loc(rf, o.node)
+        base = None
+        for a in o.path.env.values():
+            pass
+        # frame base symbol: the F symbol used in the type read
+        tv = cf.kw.get("type")
+        base = None
+        for cand in ("F1", "F2", "F3"):
+            if tv is not None and _find_sub_offset(tv, cand) is not None:
+                base = cand
+        if base is None:
+            c.undecided("read_file:fields", "frame-base-not-found", "", w)
+            continue
+        for kwname, field in want_kw.items():
+            off = _find_sub_offset(cf.kw.get(kwname), base) if kwname in cf.kw else None
+            site = "read_file:%s" % kwname
+            if off is None:
+                c.undecided(site, "offset-not-affine", repr(cf.kw.get(kwname))[:60], w)
+            else:
+                c.check(off == lay.get(field), site, "@%d = writer's %s" % (off, field), "reads @%d, writer puts %s @%s" % (off, field, lay.get(field)),
+                        "read_file takes CoCoFile.%s from frame offset %d, the writer stores the %s at offset %s" % (kwname, off, field, lay.get(field)), w)
+        # name via helper
+        calls = o.path.env.get("$calls", ())
+        nm = [a for f, a in calls]
+        if nm and isinstance(lay.get("name"), tuple):
+            off = _lin_off(nm[0][0], base)
+            c.check(off == lay["name"][0], "read_file:name", "@%s" % off, "name read @%s, written @%d" % (off, lay["name"][0]),
+                    "read_file reads the file name at frame offset %s, the writer stores it at %d" % (off, lay["name"][0]), w)
+        else:
+            c.undecided("read_file:name", "name-helper-not-found", "", w)
+        # (c) where block reading starts
+        dv = cf.kw.get("data")
+        start = None
+        if isinstance(dv, Ctor) and dv.cls == "item" and isinstance(dv.args[0], Ctor) and dv.args[0].args:
+            start = _lin_off(dv.args[0].args[0], base)
+        if start is None:
+            c.undecided("read_file:blocks-start", "not-affine", repr(dv)[:60], w)
+        else:
+            lo = 4 + T.NAMEFILE_LEN
+            c.check(lo <= start <= lay["frame_len"], "read_file:blocks-start", "data search starts within [payload end, frame end]",
+                    "data search starts at frame offset %d (frame is %d bytes, payload ends at %d)" % (start, lay["frame_len"], lo),
+                    "read_file starts looking for data blocks at offset %d of a %d-byte name-file frame: %s" %
+                    (start, lay["frame_len"], "header payload bytes can be mistaken for a sync" if start < lo else "a block that follows immediately is skipped"), w)
+    c.floor("read_file return paths building a CoCoFile", nret, 1)
+    # name helper reads K bytes
+    for hname, hnode in helpers.items():
+        sub = Interp(hnode, sub_bases=("self.buffer",), init_env={hnode.args.args[1].arg: Opq("P")})
+        adv = set()
+        for o in sub.run():
+            if o.kind == "return" and isinstance(o.value, Ctor) and o.value.cls == "list" and len(o.value.args) == 2:
+                adv.add(_lin_off(o.value.args[1], "P"))
+        if isinstance(lay.get("name"), tuple) and "name" in hname:
+            c.check(adv == {lay["name"][1]}, "%s:advance" % hname[5:], "advances %d" % lay["name"][1], "advances %s, name field is %d bytes" % (sorted(adv, key=str), lay["name"][1]),
+                    "%s advances the pointer by %s but the name field is %d bytes" % (hname[5:], sorted(adv, key=str), lay["name"][1]), repo.loc(rf, hnode))
+            loops = [n for n in ast.walk(hnode) if isinstance(n, ast.For) and isinstance(n.iter, ast.Call) and U(n.iter.func) == "range"]
+            from ..consteval import try_fold
+            cnt = [try_fold(l.iter.args[-1], ctx.env) for l in loops]
+            c.check(cnt == [lay["name"][1]], "%s:count" % hname[5:], "reads %d bytes" % lay["name"][1], "reads %s bytes" % cnt,
+                    "%s reads %s name bytes, the field has %d" % (hname[5:], cnt, lay["name"][1]), repo.loc(rf, hnode))
+    # (d) block reader
+    whereb = repo.loc(rb, rb.node)
+    try:
+        it = Interp(rb.node, sub_bases=("self.buffer",), call_syms={"self.skip_to_sequence": "F"})
+        resb = it.run()
+    except PathCap as e:
+        c.undecided("read_blocks", "path-cap", str(e), whereb)
+        return
+    sigb = None
+    for n in ast.walk(rb.node):
+        if isinstance(n, ast.Call) and U(n.func) == "self.skip_to_sequence" and n.args:
+            from ..consteval import try_fold
+            sigb = try_fold(n.args[0], ctx.env)
+    c.check(sigb == [T.SYNC[0], T.SYNC[1]], "read_blocks:signature", "55 3C", "scans for %s" % (sigb,), "read_blocks looks for %s, blocks start 55 3C" % (sigb,), whereb)
+    seen_arms = set()
+    for o in resb:
+        ta = o.path.true_atoms()
+        arm = None
+        for a in ta:
+            m = re.search(r"==\s*'([0-9A-Fa-f]{2})'$", a) or re.search(r"==\s*(0x[0-9A-Fa-f]+|\d+)$", a)
+            if m and ("block_type" in a or "type" in a):
+                lit = m.group(1)
+                arm = int(lit, 16) if not lit.startswith("0x") and "'" in a else int(lit, 0)
+        if arm is None:
+            continue
+        w = repo.loc(rb, o.node)
+        if arm == T.BLOCK_EOF and o.kind == "return":
+            seen_arms.add("eof")
+            v = o.value
+            adv = _lin_off(v.args[1], "F1") if isinstance(v, Ctor) and v.cls == "list" and len(v.args) == 2 else None
+            if adv is None:
+                c.undecided("read_blocks:eof", "advance-not-affine", repr(v)[:60], w)
+            else:
+                c.check(3 <= adv <= 6, "read_blocks:eof", "advance %d (EOF frame is 6 bytes)" % adv, "advance %d past a 6-byte EOF frame" % adv,
+                        "read_blocks advances %d bytes over an EOF frame of 6 bytes: the next file's leader/sync may be skipped" % adv, w)
+        if arm == T.BLOCK_DATA and o.kind == "fall":
+            seen_arms.add("data")
+            pv = o.path.env.get("pointer")
+            if not isinstance(pv, Lin):
+                c.undecided("read_blocks:data", "advance-not-affine", repr(pv)[:60], w)
+                continue
+            syms = {k: v for k, v in pv.terms.items() if k != "F1"}
+            lens = [k for k in syms if "sub(" in k]
+            ok_len = len(syms) == 1 and len(lens) == 1 and list(syms.values()) == [1]
+            len_off = None
+            if lens:
+                m = re.search(r"Lin\(F1\+(\d+)\)", lens[0])
+                len_off = int(m.group(1)) if m else None
+            good = ok_len and pv.c == 6 and len_off == 3
+            c.check(good, "read_blocks:data", "advance = 4 + len + 2, len read @3",
+                    "advance = %s (frame is 4 + len@3 + 2)" % (repr(pv)[:90],),
+                    "read_blocks does not step over a data block exactly: pointer after the block is %s, the frame is 4 header bytes + len (at offset 3) + checksum + 55; "
+                    "payload bytes would be scanned for the next sync" % (repr(pv)[:120],), w)
+    # the data bytes are taken from offset 4 + i
+    loops = [n for n in ast.walk(rb.node) if isinstance(n, ast.For)]
+    c.check("eof" in seen_arms and "data" in seen_arms, "read_blocks:arms", "EOF and data arms found", "arms found: %s" % sorted(seen_arms),
+            "read_blocks has no recognisable arm for %s blocks" % ("data" if "data" not in seen_arms else "EOF"), whereb)
+    # data payload read offsets: evaluate the loop body read with the loop variable symbolic
+    it2 = Interp(rb.node, sub_bases=("self.buffer",), call_syms={"self.skip_to_sequence": "F"})
+    offs = set()
+
+    def hook_expr(interp, p, s):
+        if isinstance(s.value, ast.Call) and isinstance(s.value.func, ast.Attribute) and s.value.func.attr in ("append", "extend") and s.value.args:
+            for q, v in interp.ev(p, s.value.args[0]):
+                if isinstance(v, Ctor) and v.cls == "sub" and isinstance(v.args[1], Lin):
+                    offs.add(repr(v.args[1]))
+        return None
+    it2.hooks["expr"] = hook_expr
+    try:
+        it2.run()
+    except PathCap:
+        pass
+    good = any(re.fullmatch(r"Lin\(F1\+\w+\+4\)", x.replace(" ", "")) for x in offs) and len(offs) == 1
+    if offs:
+        c.check(good, "read_blocks:payload", "data[i] = frame[4 + i]", "payload read at %s" % sorted(offs),
+                "read_blocks copies payload bytes from %s, the payload starts at frame offset 4" % sorted(offs), whereb)
+    else:
+        c.undecided("read_blocks:payload", "payload-copy-not-recognised", "", whereb)
+
+
+def cas3(ctx, c):
+    """input not consumed: writers never mutate the data they are given (C09/C11/C16: the same CoCoFile is written to several containers)"""
+    repo = ctx.repo
+    n = 0
+    for cname in ("CassetteFile", "DiskFile", "BinaryFile", "VirtualFileContainer"):
+        if not repo.has_cls(cname):
+            continue
+        C = repo.cls(cname)
+        for mname, f in C.methods.items():
+            params = [p for p in f.params if p not in ("self", "cls", "pointer")]
+            derived = set(params)
+            # locals aliasing a parameter or its attribute (x = coco_file.data)
+            for node in ast.walk(f.node):
+                if isinstance(node, ast.Assign) and len(node.targets) == 1 and isinstance(node.targets[0], ast.Name):
+                    v = node.value
+                    root = v
+                    while isinstance(root, ast.Attribute):
+                        root = root.value
+                    if isinstance(v, (ast.Name, ast.Attribute)) and isinstance(root, ast.Name) and root.id in derived:
+                        derived.add(node.targets[0].id)
+            for node in ast.walk(f.node):
+                tgt = []
+                if isinstance(node, ast.Delete):
+                    tgt = node.targets
+                elif isinstance(node, ast.Assign):
+                    tgt = node.targets
+                elif isinstance(node, ast.AugAssign):
+                    tgt = [node.target]
+                for t in tgt:
+                    if isinstance(t, ast.Subscript):
+                        root = t.value
+                        while isinstance(root, (ast.Attribute, ast.Subscript)):
+                            root = root.value
+                        if isinstance(root, ast.Name) and root.id in derived and root.id != "buffer":
+                            n += 1
+                            c.finding("%s.%s" % (cname, mname), "stores into its argument: %s" % U(t)[:40],
+                                      "%s.%s modifies the data it was given (%s); the same CoCoFile is written to every selected container" % (cname, mname, U(node)[:60]),
+                                      "%s:%d" % (C.module.rel, node.lineno))
+                if isinstance(node, ast.Call) and isinstance(node.func, ast.Attribute) and node.func.attr in (
+                        "pop", "remove", "clear", "insert", "append", "extend", "reverse", "sort"):
+                    root = node.func.value
+                    while isinstance(root, (ast.Attribute, ast.Subscript)):
+                        root = root.value
+                    if isinstance(root, ast.Name) and root.id in derived and root.id != "buffer":
+                        n += 1
+                        c.finding("%s.%s" % (cname, mname), "mutates its argument: %s" % U(node)[:40],
+                                  "%s.%s mutates the data it was given (%s)" % (cname, mname, U(node)[:60]), "%s:%d" % (C.module.rel, node.lineno))
+            c.ok("%s.%s" % (cname, mname), "arguments only read", nontrivial=bool(params))
+    # canary
+    bad = ast.parse("def f(self, raw):\n    del raw[:255]\n").body[0]
+    hit = any(isinstance(x, ast.Delete) for x in ast.walk(bad))
+    if not hit:
+        raise AnalysisError("CAS-3 canary failed")
+
+
+RULES.update({"CAS-5": cas5, "CAS-3": cas3})
